@@ -65,6 +65,14 @@ pub trait Elem: Field {
     }
 }
 
+/// R^-1 mod p for R = 2^(64N), computed with num-bigint once per (p, N) (the abstraction function is called for every logged value)
+pub fn mont_rinv<const N: usize>(p: &BigUint) -> BigUint {
+    use std::sync::{Mutex, OnceLock};
+    static CACHE: OnceLock<Mutex<std::collections::HashMap<(Vec<u8>, usize), BigUint>>> = OnceLock::new();
+    let key = (p.to_bytes_le(), N);
+    let mut m = CACHE.get_or_init(|| Mutex::new(Default::default())).lock().unwrap();
+    m.entry(key).or_insert_with(|| mont_r::<N>(p).modpow(&(p - 2u32), p)).clone()
+}
 pub fn mont_r<const N: usize>(p: &BigUint) -> BigUint {
     (BigUint::one() << (64 * N)) % p
 }
@@ -86,8 +94,7 @@ impl<T: MontConfig<N>, const N: usize> Elem for Fp<MontBackend<T, N>, N> {
         if raw >= p {
             return Err(format!("non-canonical Montgomery representation: raw {raw} >= p {p}"));
         }
-        let r = mont_r::<N>(&p);
-        let rinv = r.modpow(&(&p - 2u32), &p);
+        let rinv = mont_rinv::<N>(&p);
         Ok(num_to_json(&((raw * rinv) % &p), big))
     }
     fn raw_json(&self) -> Value {
